@@ -29,7 +29,11 @@ REQUIRED = ["Sqfs.C05." + n for n in (
     "read_inode_dir_ext_safe", "read_dir_ent_safe", "readdir_progress", "unpack_dir_index_safe",
     "resolve_compare_safe", "fill_dir_terminates", "dir_rec_terminates",
     "fill_dir_nodes_linear", "dir_rec_nodes_linear", "fill_dir_depth_bounded", "dir_rec_depth_bounded",
-    "fill_dir_v_terminates", "dir_rec_v_terminates")]
+    "fill_dir_v_terminates", "dir_rec_v_terminates",
+    "super_read_safe", "id_table_read_safe", "index_to_id_safe", "frag_table_read_safe", "frag_lookup_safe",
+    "xattr_load_safe", "xattr_get_desc_safe", "xattr_seek_kv_safe", "xattr_read_key_safe", "xattr_read_value_safe",
+    "xattr_read_safe", "xattr_read_all_safe", "xattr_read_all_terminates", "open_dir_states",
+    "dir_entry_from_inode_safe", "read_link_safe")]
 
 # known-finding keys (exactly the strings in known_findings.d/C05.json)
 K_D3 = "D3:sqfs_meta_reader_read:after-failed-seek"
@@ -233,6 +237,402 @@ def gen_resolve_lines(rng):
     return lines
 
 
+
+# ---------------------------------------------------------------- tables, xattr reader, directory reader (ReaderTables)
+B16 = [0, 1, 2, 255, 256, 0x7FFF, 0x8000, 0xFFFE, 0xFFFF]
+B32X = [0, 1, 2, 0xFFFF, 0x10000, 0x10001, 0x7FFFFFFF, 0x80000000, 0x80000001, 0xFFFFFFF0, 0xFFFFFFFE, 0xFFFFFFFF]
+B64X = [0, 1, 95, 96, 97, 0xFFFFFFFF, 2 ** 32, 2 ** 32 + 1, 2 ** 63, 2 ** 64 - 8192, 2 ** 64 - 16, 2 ** 64 - 2, 2 ** 64 - 1]
+
+
+def mblock(data):
+    """uncompressed metadata block"""
+    return struct.pack("<H", 0x8000 | len(data)) + bytes(data)
+
+
+def mblock_toy(pattern, n):
+    """toy-compressed metadata block that unpacks to n bytes: pattern repeated"""
+    body = struct.pack("<H", n) + bytes(pattern)
+    return struct.pack("<H", len(body)) + body
+
+
+def toy_unpacked(pattern, n):
+    return bytes(pattern[i % len(pattern)] for i in range(n)) if pattern else bytes([0x5a]) * n
+
+
+def sb_line(flags=0, id_count=1, frag_count=0, bytes_used=0, idt=0, xat=2 ** 64 - 1, ino=96, dts=96, fts=2 ** 64 - 1, ets=2 ** 64 - 1, root=0, bs=4096):
+    return "sb %d %d %d %d %d %d %d %d %d %d %d %d" % (flags & 0xFFFF, id_count & 0xFFFF, frag_count & 0xFFFFFFFF, bytes_used, idt, xat, ino, dts, fts, ets, root, bs)
+
+
+def valid_super(rng):
+    log = rng.randint(12, 20)
+    return {"magic": 0x73717368, "inode_count": 5, "mtime": 0, "block_size": 1 << log, "frag_count": 1, "comp": rng.randint(1, 6), "log": log,
+            "flags": 0, "id_count": 1, "vmaj": 4, "vmin": 0, "root": 0, "used": 4096, "idt": 3000, "xat": 2 ** 64 - 1, "ino": 96, "dts": 1000,
+            "fts": 2000, "ets": 2 ** 64 - 1}
+
+
+def pack_super(f):
+    return struct.pack("<IIIIIHHHHHHQQQQQQQQ", f["magic"] & 0xFFFFFFFF, f["inode_count"], f["mtime"], f["block_size"] & 0xFFFFFFFF, f["frag_count"],
+                       f["comp"] & 0xFFFF, f["log"] & 0xFFFF, f["flags"], f["id_count"] & 0xFFFF, f["vmaj"] & 0xFFFF, f["vmin"] & 0xFFFF, f["root"],
+                       f["used"], f["idt"], f["xat"], f["ino"], f["dts"], f["fts"], f["ets"])
+
+
+def gen_super_lines(rng):
+    lines = []
+    for _ in range(10):
+        f = valid_super(rng)
+        k = rng.random()
+        if k < 0.15:
+            pass
+        elif k < 0.3:
+            f["block_size"] = pick(rng, [0, 1, 2048, 4095, 4096, 4097, 6144, 1 << 20, (1 << 20) + 1, 1 << 21, 1 << 31, 0xFFFFFFFF, f["block_size"] * 2, f["block_size"] // 2])
+        elif k < 0.45:
+            f["log"] = pick(rng, [0, 11, 12, 20, 21, 32, 64, 0xFFFF, f["log"] + 1, f["log"] - 1])
+            if rng.random() < 0.5:
+                f["block_size"] = (1 << f["log"]) & 0xFFFFFFFF if f["log"] < 40 else 0
+        elif k < 0.55:
+            f["magic"] = pick(rng, [0, 0x73717369, 0x68737173, 0xFFFFFFFF])
+        elif k < 0.65:
+            f[pick(rng, ["vmaj", "vmin"])] = pick(rng, [0, 1, 3, 4, 5, 0xFFFF])
+        elif k < 0.8:
+            f["comp"] = pick(rng, [0, 1, 6, 7, 0xFFFF])
+        elif k < 0.9:
+            f["id_count"] = pick(rng, [0, 1, 0xFFFF])
+        blob = pack_super(f) + bytes(rng.randrange(256) for _ in range(pick(rng, [0, 0, 4, 100])))
+        if rng.random() < 0.15:
+            blob = blob[:pick(rng, [0, 1, 50, 95])]
+        lines.append("super " + hx(blob))
+    return lines
+
+
+def table_image(rng, raw, lower_pad=96, short_last=0, bad_loc=None, toy_first=False):
+    """pad, metadata blocks holding `raw` (8192 per block), then the location array; returns (img, lower, table_start, block positions)"""
+    img = bytearray(rng.randrange(256) for _ in range(lower_pad))
+    lower = len(img)
+    locs = []
+    chunks = [raw[i:i + 8192] for i in range(0, len(raw), 8192)] or []
+    for ci, ch in enumerate(chunks):
+        locs.append(len(img))
+        if ci == len(chunks) - 1 and short_last:
+            ch = ch[:max(0, len(ch) - short_last)]
+        img += mblock(ch)
+    start = len(img)
+    if bad_loc is not None and locs:
+        locs[bad_loc[0] % len(locs)] = bad_loc[1]
+    img += b"".join(struct.pack("<Q", l) for l in locs)
+    return img, lower, start, locs
+
+
+def gen_table_lines(rng):
+    lines = []
+    # ---- id table
+    for _ in range(3):
+        idc = pick(rng, [1, 2, 100, 2048, 2049, 4096, 5000])
+        if toy := (rng.random() < 0.2 and idc <= 2048):
+            pat = bytes(rng.randrange(256) for _ in range(8))
+            raw = toy_unpacked(pat, idc * 4)
+        else:
+            raw = bytes(rng.randrange(256) for _ in range(idc * 4))
+        k = rng.random()
+        short = pick(rng, [1, 4, 100]) if 0.1 < k < 0.2 else 0
+        img, lower, start, locs = table_image(rng, raw, short_last=short)
+        if toy:
+            img = bytearray(img[:lower]) + mblock_toy(pat, idc * 4)
+            start = len(img)
+            img += struct.pack("<Q", lower)
+            locs = [lower]
+        bad = None
+        if 0.2 < k < 0.35 and locs:
+            bad = (rng.randrange(len(locs)), pick(rng, [0, lower - 1, start, start + 8, len(img), 2 ** 64 - 1, locs[0] + 1]))
+            struct.pack_into("<Q", img, start + 8 * bad[0], bad[1])
+        img += bytes(rng.randrange(256) for _ in range(pick(rng, [0, 7, 64])))
+        used = len(img)
+        if 0.35 < k < 0.42:
+            img = img[:len(img) - pick(rng, [1, 8, 9, 70])]           # truncated file
+        fields = dict(id_count=idc, bytes_used=used, idt=start, dts=lower)
+        m = rng.random()
+        if m < 0.1:
+            fields["id_count"] = pick(rng, [0, idc + 1, idc - 1, 0xFFFF, 2048, 2049])
+        elif m < 0.2:
+            fields["bytes_used"] = pick(rng, [0, start, start + 1, start - 1, 2 ** 64 - 1])
+        elif m < 0.3:
+            fields["fts"] = pick(rng, [lower, lower + 1, start - 1, start, (locs[0] + 1) if locs else 0, 0])
+        elif m < 0.4:
+            fields["ets"] = pick(rng, [lower, lower + 1, start - 1, start, (locs[-1] + 1) if locs else 0, 0])
+        elif m < 0.5:
+            fields["dts"] = pick(rng, [0, lower + 1, (locs[0] + 1) if locs else 0, start, start + 1, 2 ** 64 - 1])
+        elif m < 0.55:
+            fields["idt"] = pick(rng, [0, start + 1, start - 8, used, used - 1, 2 ** 64 - 1])
+        lines += ["img " + hx(img), sb_line(**fields), "idtable"]
+        n = fields["id_count"] & 0xFFFF
+        for i in sorted({0, 1, max(n - 1, 0), n, n + 1 if n < 0xFFFF else 0, 0xFFFF, 2048}):
+            lines.append("idx %d" % i)
+    # ---- fragment table
+    for _ in range(3):
+        cnt = pick(rng, [1, 2, 511, 512, 513, 1024])
+        raw = bytes(rng.randrange(256) for _ in range(cnt * 16))
+        k = rng.random()
+        img, lower, start, locs = table_image(rng, raw, short_last=(pick(rng, [1, 16]) if 0.1 < k < 0.2 else 0))
+        if 0.2 < k < 0.35:
+            struct.pack_into("<Q", img, start + 8 * rng.randrange(len(locs)), pick(rng, [0, lower - 1, start, len(img), 2 ** 64 - 1]))
+        idt = len(img) + pick(rng, [0, 16])
+        img += bytes(rng.randrange(256) for _ in range(idt - len(img) + 32))
+        used = len(img)
+        fields = dict(frag_count=cnt, bytes_used=used, idt=idt, dts=lower, fts=start)
+        m = rng.random()
+        if m < 0.12:
+            fields["frag_count"] = pick(rng, [0, cnt + 1, cnt - 1 or 1, 512, 513, 2 ** 28, 2 ** 32 - 1])
+        elif m < 0.2:
+            fields["flags"] = pick(rng, [0x10, 0x11, 0xFFEF, 0xFFFF, 0x200])
+        elif m < 0.3:
+            fields["fts"] = pick(rng, [2 ** 64 - 1, used, used - 1, lower, lower - 1, idt, idt - 1, 0])
+        elif m < 0.4:
+            fields["dts"] = pick(rng, [0, start, start + 1, (locs[0] + 1), 2 ** 64 - 1])
+        elif m < 0.5:
+            fields["ets"] = pick(rng, [0, lower, locs[-1], locs[-1] + 1, start, start + 1, idt - 1, idt, idt + 1])
+        elif m < 0.6:
+            fields["idt"] = pick(rng, [0, start, start + 1, locs[-1] + 1, used, 2 ** 64 - 1])
+        elif m < 0.65:
+            fields["bytes_used"] = pick(rng, [0, start, start + 1])
+        lines += ["img " + hx(img), sb_line(**fields), "fragtable"]
+        n = fields["frag_count"] & 0xFFFFFFFF
+        for i in sorted({0, 1, max(n - 1, 0), n, (n + 1) & 0xFFFFFFFF, 0xFFFFFFFF}):
+            if i * 16 < 10 ** 7 or i >= n:
+                lines.append("fragidx %d" % i)
+    return lines
+
+
+XPFX = {0: 5, 1: 8, 2: 9}
+
+
+def gen_xattr_group(rng):
+    """one image with an xattr table, then calls on a fresh reader"""
+    pad = 96
+    clean = rng.random() < 0.4                                # a well-formed table: the success paths of every routine
+    img = bytearray(rng.randrange(256) for _ in range(pad))
+    win_start = pick(rng, [0, pad, pad])                      # super.id_table_start: start of both readers' window
+    # ---- key-value stream: pairs laid out in consecutive blocks
+    kv = bytearray()
+    pairs = []                                                 # (offset in stream, type, ksize, vsize, ool)
+    ool_vals = []
+    npairs = rng.randint(1, 6)
+    for _ in range(npairs):
+        t = pick(rng, [0, 1, 2, 0x100, 0x101, 0x102, 0x200, 0x8001] if clean else
+                 [0, 0, 1, 2, 2, 3, 0xFF, 0x100, 0x101, 0x102, 0x103, 0x200, 0x8000, 0xFFFF])
+        ks = pick(rng, [0, 1, 4, 30, 255, 300])
+        at = len(kv)
+        kv += struct.pack("<HH", t, ks) + bytes(rng.randrange(1, 256) for _ in range(ks))
+        if t & 0x100:
+            kv += struct.pack("<I", pick(rng, [8, 8, 0, 9]))
+            ool_vals.append(len(kv))
+            kv += struct.pack("<Q", 0)                          # patched below
+            vs = pick(rng, [0, 1, 50, 700])
+        else:
+            vs = pick(rng, [0, 1, 17, 400, 9000])
+            kv += struct.pack("<I", vs) + bytes(rng.randrange(256) for _ in range(vs))
+        pairs.append((at, t, ks, vs))
+    # plain values for the out-of-line references
+    ool_targets = []
+    for _ in ool_vals:
+        vs = pick(rng, [0, 1, 50, 700])
+        ool_targets.append((len(kv), vs))
+        kv += struct.pack("<I", vs) + bytes(rng.randrange(256) for _ in range(vs))
+    tail_kind = 1.0 if clean else rng.random()
+    if tail_kind < 0.25:
+        kv += struct.pack("<HHI", 0, 3, 2 ** 32 - 1)[:pick(rng, [2, 4, 8])]     # a pair cut off / key bytes missing
+    elif tail_kind < 0.4:
+        kv += struct.pack("<HH", 0, 2) + b"ab" + struct.pack("<I", pick(rng, [2 ** 32 - 1, 2 ** 31, 70000]))   # huge value, no data
+    xstart = len(img)
+    blk_of = []                                                # stream offset of every block start
+    bsz = pick(rng, [8192, 8192, 1000, 4096])
+    chunks = [kv[i:i + bsz] for i in range(0, len(kv), bsz)] or [b""]
+    pos = []
+    for ch in chunks:
+        pos.append(len(img) - xstart)
+        img += mblock(ch)
+
+    def ref_of(stream_off):
+        b = stream_off // bsz
+        return (pos[b] << 16) | (stream_off % bsz)
+
+    # patch the out-of-line references (value = location of a plain value, relative to xattr_table_start)
+    for vi, (where, tgt) in enumerate(zip(ool_vals, ool_targets)):
+        r = ref_of(tgt[0])
+        k = 1.0 if clean else rng.random()
+        if k < 0.12:
+            r = pick(rng, [(len(img) - xstart + 50) << 16, (2 ** 47) << 16, (pos[0] << 16) | 8192, (pos[0] << 16) | 0xFFFF, (pos[-1] << 16) | len(chunks[-1]),
+                           ((2 ** 48 - 1) << 16) | 5])
+        b, o = where // bsz, where % bsz
+        # the 8 bytes may straddle two blocks: patch byte-wise in the image
+        rb = struct.pack("<Q", r & (2 ** 64 - 1))
+        for j in range(8):
+            so = where + j
+            img[xstart + pos[so // bsz] + 2 + so % bsz] = rb[j]
+    # ---- descriptors
+    descs = []
+    nd = pick(rng, [1, 2, 3, 3, 513])
+    for d in range(nd):
+        first = rng.randrange(len(pairs))
+        cnt = pick(rng, [1, len(pairs) - first, len(pairs) - first, len(pairs) - first + 1, 0, 2 ** 32 - 1]) if d < 8 else 1
+        x = ref_of(pairs[first][0])
+        if not clean and rng.random() < 0.1 and d < 8:
+            x = pick(rng, [(len(img)) << 16, x | 0xFFFF, x + (1 << 16), (2 ** 48 - 1) << 16, ((2 ** 48) - (xstart >> 0)) << 16])
+        descs.append((x & (2 ** 64 - 1), cnt, 0, first))
+    raw = b"".join(struct.pack("<QII", x, c, sz) for x, c, sz, _ in descs)
+    idlocs = []
+    for i in range(0, len(raw), 8192):
+        idlocs.append(len(img))
+        img += mblock(raw[i:i + 8192])
+    xat = len(img)
+    ids_field = nd
+    m = 1.0 if clean else rng.random()
+    if m < 0.1:
+        ids_field = pick(rng, [0, nd + 1, 511, 512, 513, 1025, 2 ** 32 - 1])
+    tstart_field = xstart
+    if 0.1 < m < 0.18:
+        tstart_field = pick(rng, [0, xstart + 1, len(img), 2 ** 64 - 1, 2 ** 64 - xstart])
+    if 0.18 < m < 0.26 and idlocs:
+        idlocs[rng.randrange(len(idlocs))] = pick(rng, [0, win_start - 1 if win_start else 0, len(img) + 200, 2 ** 64 - 1, xat])
+    img += struct.pack("<QII", tstart_field, ids_field, 0) + b"".join(struct.pack("<Q", l) for l in idlocs)
+    img += bytes(rng.randrange(256) for _ in range(pick(rng, [0, 40])))
+    used = len(img)
+    if 0.26 < m < 0.32:
+        img = img[:len(img) - pick(rng, [1, 41, 49, 57])]
+    fields = dict(bytes_used=used, idt=win_start, xat=xat)
+    if 0.32 < m < 0.4:
+        fields["flags"] = pick(rng, [0x200, 0x210, 0xFFFF, 0x100])
+    elif 0.4 < m < 0.48:
+        fields["xat"] = pick(rng, [2 ** 64 - 1, used, used - 1, used + 1, 0, xat + 8, xat - 8])
+    elif 0.48 < m < 0.54:
+        fields["bytes_used"] = pick(rng, [xat, xat + 1, xat + 16, idlocs[0] if idlocs else 0, 2 ** 64 - 1])
+    elif 0.54 < m < 0.6:
+        fields["idt"] = pick(rng, [xstart + 1, xat, used, 2 ** 64 - 1])
+    head = ["img " + hx(img), sb_line(**fields)]
+    groups = []
+    # descriptor lookups
+    g = ["xnew"]
+    if rng.random() < 0.15:
+        g.append("xdesc 0")                                    # before any table is loaded
+        g.append("xdesc 1")
+        g.append("xseek 0")
+    g.append("xload")
+    for i in sorted({0, 1, nd - 1, nd, nd + 1, 511, 512, 513, 0xFFFFFFFF, 0xFFFFFFFE, ids_field & 0xFFFFFFFF, (ids_field - 1) & 0xFFFFFFFF}):
+        g.append("xdesc %d" % i)
+    if rng.random() < 0.2:
+        g.append("xload")                                      # a second load on the same object
+        g.append("xdesc 0")
+    groups.append(g)
+    # key / value calls along the stream
+    for d in range(min(nd, 3)):
+        x, cnt, _, first = descs[d]
+        g = ["xnew", "xload", "xseek %d" % x]
+        for (at, t, ks, vs) in pairs[first:first + 3]:
+            g.append("xkey")
+            g.append("xval %d" % (t if rng.random() < 0.9 else t ^ 0x100))
+        g.append("xkey")
+        groups.append(g)
+    # read_all
+    for d in sorted({0, 1, nd - 1, nd, 0xFFFFFFFF}):
+        groups.append(["xnew", "xload", "xall %d" % d, "xall %d" % d])
+    out = list(head)
+    for g in groups:
+        out += g
+    return out
+
+
+def gen_dopen_lines(rng):
+    lines = ["img -"]
+    for _ in range(12):
+        dts = pick(rng, [0, 96, 1000, 2 ** 32, 2 ** 64 - 1, 2 ** 64 - 0x10000])
+        root = pick(rng, [0, 5 << 16, 77])
+        lines.append(sb_line(dts=dts, root=root))
+        rdf = pick(rng, [0, 1, 1, 1])
+        of = pick(rng, [0, 0, 1, 1, 2, 3, 0x80000000, 0xFFFFFFFF])
+        ty = pick(rng, [1, 1, 8, 8, 0, 2, 9, 7, 14, 0xFFFF])
+        sblk = pick(rng, B32X)
+        off = pick(rng, [0, 1, 8191, 8192, 0xFFFF])
+        sz = pick(rng, [0, 3, 4, 12, 15, 16, 23, 24, 0xFFFF, 0x10000, 0x10003, 0xFFFFFFFF])
+        inum = pick(rng, [1, 2, 0, 0xFFFFFFFF])
+        par = pick(rng, [1, 3, 0, 0xFFFFFFFF])
+        cache = []
+        if rng.random() < 0.8:
+            cache.append("%d:%d" % (inum, pick(rng, [root, root, 9 << 16, 0])))
+        if rng.random() < 0.6:
+            cache.append("%d:%d" % (par, pick(rng, [root, 4 << 16, 2 ** 48 - 1])))
+        if rng.random() < 0.3:
+            cache.append("%d:%d" % (rng.randint(4, 9), 12345))
+        rng.shuffle(cache)
+        lines.append("dopen %d %d %d %d %d %d %d %d %s" % (rdf, of, ty, sblk, off, sz, inum, par, ",".join(cache) or "-"))
+    return lines
+
+
+def gen_dirlist_lines(rng):
+    """a directory table with one listing (several headers), read with listing sizes around every boundary"""
+    pad = pick(rng, [96, 200])
+    img = bytearray(rng.randrange(256) for _ in range(pad))
+    dts = len(img)
+    listing = bytearray()
+    marks = [0]
+    for _ in range(rng.randint(1, 3)):
+        n = pick(rng, [1, 1, 2, 5, 40, 256, 257]) if rng.random() < 0.85 else pick(rng, [256, 257, 300])
+        cfield = n - 1
+        k = rng.random()
+        if k < 0.1:
+            cfield = pick(rng, [255, 256, 0xFFFFFFFF, n, max(n - 2, 0)])
+        listing += struct.pack("<III", cfield & 0xFFFFFFFF, pick(rng, [0, 7, 2 ** 32 - 1]), rng.randint(1, 50))
+        marks.append(len(listing))
+        for e in range(n if n <= 257 else 257):
+            ns = pick(rng, [0, 0, 2, 7, 30, 255]) if rng.random() < 0.97 else pick(rng, [1000, 0xFFFF])
+            listing += struct.pack("<HhHH", rng.randrange(8192), rng.randint(-3, 3), pick(rng, [1, 2, 3]), ns) + bytes(rng.randrange(1, 256) for _ in range(min(ns + 1, 1200)))
+            marks.append(len(listing))
+            if len(listing) > 30000:
+                break
+    bsz = pick(rng, [8192, 8192, 500])
+    start_off = pick(rng, [0, 0, 10])
+    stream = bytes(rng.randrange(256) for _ in range(start_off)) + bytes(listing)
+    for i in range(0, len(stream), bsz):
+        img += mblock(stream[i:i + bsz])
+    limit = len(img)
+    img += bytes(rng.randrange(256) for _ in range(pick(rng, [0, 16])))
+    k = rng.random()
+    if k < 0.15:
+        img = img[:limit - pick(rng, [1, 5, 200])]
+    lines = ["img " + hx(img)]
+    fields = dict(bytes_used=len(img) + 10, idt=limit, dts=dts)
+    m = rng.random()
+    if m < 0.1:
+        fields["fts"] = pick(rng, [dts, dts + 2, limit - 1, 0])
+    elif m < 0.2:
+        fields["ets"] = pick(rng, [dts, dts + 1, limit - 3, 0])
+    elif m < 0.3:
+        fields["idt"] = pick(rng, [dts, dts + 1, limit - 1, limit + 1, 0, 2 ** 64 - 1])
+    elif m < 0.36:
+        fields["dts"] = pick(rng, [dts + 1, dts - 1, 0, 2 ** 64 - 1])
+    lines.append(sb_line(**fields))
+    total = len(listing)
+    sizes = {0, 1, 3, 12, 13, 15, 16, 20, 23, 24, total, total + 1, total + 2, total + 3, total + 4, total + 20, 0xFFFFFFFF}
+    for mk in rng.sample(marks, min(len(marks), 6)):
+        sizes |= {mk + 2, mk + 3, mk + 4, mk + 3 + 8, mk + 3 + 12, mk + 3 + 9}
+    for sz in sorted(sizes):
+        lines.append("dirlist %d %d %d" % (0, start_off, sz & 0xFFFFFFFF))
+    lines.append("dirlist %d %d %d" % (pick(rng, [1, 2, 2 ** 32 - 1]), start_off, total + 3))
+    lines.append("dirlist %d %d %d" % (0, pick(rng, [start_off + 1, 8191, 8192, 0xFFFF]), total + 3))
+    return lines
+
+
+def gen_dentry_lines(rng):
+    lines = []
+    for _ in range(10):
+        used = pick(rng, [0, 1, 2, 2, 300, 3000])
+        ui = pick(rng, [0, 1, max(used - 1, 0), used & 0xFFFF, 0xFFFF])
+        gi = pick(rng, [0, 1, max(used - 1, 0), used & 0xFFFF, 0xFFFF])
+        nn = pick(rng, [0, 1, 2, 5, 40, 255, 256])
+        name = bytearray(rng.randrange(1, 256) for _ in range(nn))
+        if nn and rng.random() < 0.4:
+            name[rng.randrange(nn)] = 0
+        ln = pick(rng, [0, 1, nn, nn + 1, max(nn - 1, 0), nn // 2])
+        lines.append("dentry %d %d %d %d %s" % (used, ui, gi, ln, hx(name)))
+    return lines
+
 def run_harness(ctx, exe, lines):
     """run the line harness with crash recovery: returns list of outputs; a crashed line gets ('CRASH', rc, stderr)"""
     out = [None] * len(lines)
@@ -256,9 +656,13 @@ def run_harness(ctx, exe, lines):
             break
         out[i + done] = ("CRASH", rc, err[-3000:])
         # state lines that must be replayed: last img, and the reader is gone (next group starts with its own mr)
+        last_img, last_sb = None, None
         for l in lines[:i + done + 1]:
             if l.startswith("img "):
-                ctxlines = [l]
+                last_img, last_sb = l, None
+            elif l.startswith("sb "):
+                last_sb = l
+        ctxlines = [x for x in (last_img, last_sb) if x]
         i = i + done + 1
     return out
 
@@ -293,6 +697,14 @@ def routine_level(ctx, harness, stats):
             groups.append(("inode", gen_inode_lines(ctx.rng)))
             groups.append(("unpack", gen_unpack_lines(ctx.rng)))
             groups.append(("resolve", gen_resolve_lines(ctx.rng)))
+            groups.append(("super", gen_super_lines(ctx.rng)))
+            groups.append(("dopen", gen_dopen_lines(ctx.rng)))
+            groups.append(("dentry", gen_dentry_lines(ctx.rng)))
+        if g % 3 == 0:
+            groups.append(("table", gen_table_lines(ctx.rng)))
+            groups.append(("dirlist", gen_dirlist_lines(ctx.rng)))
+        if g % 3 != 2:
+            groups.append(("xattr", gen_xattr_group(ctx.rng)))
     lines, owner = [], []
     for gi, (kind, ls) in enumerate(groups):
         lines += ls
@@ -305,12 +717,16 @@ def routine_level(ctx, harness, stats):
     # per meta group: after the first failed call the reader state is implementation-defined (the repairs of
     # D2 and D3 differ there); those lines are run for safety only
     poisoned = set()
+    xpoisoned = False      # xattr reader: after a failed call its meta readers are in a state the model does not track
     nontrivial = set()
     hist = {}
+    XOPS = ("xdesc", "xseek", "xkey", "xval", "xall")
     for i, l in enumerate(lines):
-        op = l.split()[0]
+        op = l.split(" ", 1)[0]
         if op == "mr":
             poisoned.discard(owner[i])
+        if op in ("xnew", "img"):
+            xpoisoned = False
         m = model[i]
         m_status = m.split(" UNSAFE")[0]
         if " UNSAFE" in m:
@@ -343,10 +759,15 @@ def routine_level(ctx, harness, stats):
         if owner[i] in poisoned and op in ("seek", "read"):
             stats["post_failure_lines"] += 1
             continue
+        if xpoisoned and op in XOPS:
+            stats["post_failure_lines"] += 1
+            continue
         if op in ("seek", "read") and got.startswith("err"):
             poisoned.add(owner[i])
+        if op in XOPS and got.startswith("err"):
+            xpoisoned = True
         if got.startswith("err") or "err" in got.split()[-2:]:
-            nontrivial.add(l)
+            nontrivial.add(l if len(l) < 300 else op + ":" + vlib.sha(l)[:12] + ":" + str(i))
         if op in ("dread", "inode", "dirent") and got.startswith("err ") and got != "err ALLOC":
             got = "err"                            # the model does not name the error for these operations
         if got == m_status:
